@@ -2102,6 +2102,19 @@ impl Scenario for Faults {
 pub struct Isolate;
 
 /// A fault confined to one link that keeps link id, FEE ID and framing consistent.
+/// Size- and group-preserving edit of a header field that is judged against what the link saw first
+/// (version) or against a constant.
+fn rdh_identity_edit(r: &mut itsgen::rdh::Rdh, rng: &mut Rng) {
+    match rng.below(7) {
+        0 | 1 => r.version = *rng.pick(&[6u8, 7, 5, 8]),
+        2 => r.system_id = *rng.pick(&[0x20u8, 0x21, 0x03, 0x06]),
+        3 => r.priority ^= 1,
+        4 => r.detector_field ^= 1 << rng.below(32),
+        5 => r.dw = r.dw.wrapping_add(1),
+        _ => r.rdh0_reserved ^= 1,
+    }
+}
+
 fn link_fault(st: &mut Stream, li: usize, rng: &mut Rng) -> &'static str {
     let n = st.links[li].packets.len();
     if n == 0 {
@@ -2132,6 +2145,13 @@ fn link_fault(st: &mut Stream, li: usize, rng: &mut Rng) -> &'static str {
                 _ => r.trigger_type |= 1 << 20,
             }
             "rdh_field"
+        }
+        4 => {
+            // fields every link learns or judges on its own: the first packet of the link (which may be
+            // the first of the stream) in half of the cases
+            let p = if rng.chance(1, 2) { 0 } else { p };
+            rdh_identity_edit(&mut st.links[li].packets[p].rdh, rng);
+            "rdh_identity_field"
         }
         _ => {
             let pk = &mut st.links[li].packets[p];
@@ -2262,6 +2282,8 @@ impl Scenario for Isolate {
         cfg.n_links = rng.range(2, 8) as usize;
         // two FEE IDs on one link number: legal where validation is per FEE ID
         cfg.share_link_ids = stave && rng.chance(1, 2);
+        // staves of one layer whose numbers differ in one bit (a filter mask slip selects both)
+        cfg.alias_staves = rng.chance(1, 2);
         let mut st = gen_conforming(&cfg, &mut rng);
         let mut label = CHECK_MODES[mode_i].join(" ");
         if cfg.share_link_ids {
@@ -2298,14 +2320,31 @@ impl Scenario for Isolate {
         };
         st2.remerge(m2, &mut rng);
         runs.push((IsoRole::OtherMerge, mk(st2.bytes(), &[], &mut rng)));
-        // one link: extracted, filtered, sequential
-        let li = rng.usize_below(st.links.len());
+        // one link: extracted, filtered, sequential (preferably one whose stave number differs from
+        // another link's in a single bit, selected with the stave filter)
+        let mut li = rng.usize_below(st.links.len());
+        let mut force_stave_filter = false;
+        {
+            let aliased: Vec<usize> = (0..st.links.len())
+                .filter(|&i| {
+                    st.links.iter().enumerate().any(|(j, l)| {
+                        let (a, b) = (st.links[i].fee_id, l.fee_id);
+                        j != i && (a >> 12) & 7 == (b >> 12) & 7 && ((a ^ b) & 0x3F).count_ones() == 1
+                    })
+                })
+                .collect();
+            if !aliased.is_empty() && rng.chance(2, 3) {
+                li = aliased[rng.usize_below(aliased.len())];
+                force_stave_filter = true;
+            }
+        }
         let g: u16 = if stave { st.links[li].fee_id } else { st.links[li].link_id as u16 };
         let extracted = st.extract_link(li).bytes();
         if !extracted.is_empty() {
             runs.push((IsoRole::Extracted(g), mk(extracted.clone(), &[], &mut rng)));
             let link_shared = st.links.iter().filter(|l| l.link_id == st.links[li].link_id).count() > 1;
             let f = match rng.below(3) {
+                _ if force_stave_filter => Filter::Stave(st.links[li].fee_id),
                 0 if !link_shared => Filter::Link(st.links[li].link_id),
                 1 => Filter::Fee(st.links[li].fee_id),
                 _ => Filter::Stave(st.links[li].fee_id),
@@ -2325,13 +2364,18 @@ impl Scenario for Isolate {
                 (0..st3.links[a].packets.len()).filter(|&p| !st3.links[a].packets[p].words.is_empty()).collect();
             if !cands.is_empty() {
                 let p = cands[rng.usize_below(cands.len())];
+                let p = if rng.chance(1, 3) { 0 } else { p };
                 let pk = &mut st3.links[a].packets[p];
-                let wi = rng.usize_below(pk.words.len());
-                if rng.chance(1, 2) {
-                    let bit = rng.usize_below(80);
-                    pk.words[wi].word[bit / 8] ^= 1 << (bit % 8);
-                } else {
-                    pk.words[wi].word[9] = *rng.pick(&[0x00u8, 0x29, 0xE0, 0xE4, 0xE8, 0xF0, 0x9A]);
+                let wi = rng.usize_below(pk.words.len().max(1));
+                match rng.below(3) {
+                    0 if !pk.words.is_empty() => {
+                        let bit = rng.usize_below(80);
+                        pk.words[wi].word[bit / 8] ^= 1 << (bit % 8);
+                    }
+                    1 if !pk.words.is_empty() => {
+                        pk.words[wi].word[9] = *rng.pick(&[0x00u8, 0x29, 0xE0, 0xE4, 0xE8, 0xF0, 0x9A]);
+                    }
+                    _ => rdh_identity_edit(&mut pk.rdh, &mut rng),
                 }
                 let ga: u16 = if stave { st3.links[a].fee_id } else { st3.links[a].link_id as u16 };
                 runs.push((IsoRole::CorruptedOther(ga), mk(st3.bytes(), &[], &mut rng)));
